@@ -84,6 +84,7 @@ func bucketCmd(args []string) int {
 	defer tw.Close()
 	st := drv.NewStats()
 	if c.Replay != "" {
+		st.Sample("replay of " + c.Replay)
 		for _, rc := range drv.ReadCases(c.Replay) {
 			runBucketCase(tw, st, rc.ID, int64(drv.AtoiDef(rc.Init, 0, 1)), int64(drv.AtoiDef(rc.Init, 1, 0)), int64(drv.AtoiDef(rc.Init, 2, 1)), rc.OpLines)
 		}
@@ -298,6 +299,7 @@ func shapeCmd(args []string) int {
 	st := drv.NewStats()
 	defer func() { st.Write(c.Stats) }()
 	if c.Replay != "" {
+		st.Sample("replay of " + c.Replay)
 		for _, rc := range drv.ReadCases(c.Replay) {
 			if !runShapeCase(tw, st, rc.ID, int64(drv.AtoiDef(rc.Init, 0, 32768)), int64(drv.AtoiDef(rc.Init, 1, 32768)), rc.OpLines) {
 				break
